@@ -185,8 +185,8 @@ impl<'a> StateMachine<'a> {
             crate::verif_hooks::machine::observe(self, false);
         }
 
-        self.handle_pending_line_with_diff_name()?;
         self.painter.paint_buffered_minus_and_plus_lines();
+        self.handle_pending_line_with_diff_name()?;
         self.painter.emit()?;
         #[cfg(dandavison_delta_verif)]
         crate::verif_hooks::machine::observe(self, true);
